@@ -266,10 +266,13 @@ func (z *ZodTuple[T, R]) With(check core.ZodCheck) *ZodTuple[T, R] {
 // METADATA METHODS
 // =============================================================================
 
-// Meta stores metadata for this tuple schema.
+// Meta returns a new schema with the given metadata stored in the global
+// registry; the receiver and its registry entry are unchanged.
 func (z *ZodTuple[T, R]) Meta(meta core.GlobalMeta) *ZodTuple[T, R] {
-	core.GlobalRegistry.Add(z, meta)
-	return z
+	newInternals := z.internals.Clone()
+	clone := z.withInternals(newInternals)
+	core.GlobalRegistry.Add(clone, meta)
+	return clone
 }
 
 // Describe registers a description in the global registry.
